@@ -103,3 +103,122 @@ Print Assumptions c15_loss_cwnd_mss_units.
 Print Assumptions c15_slow_start_growth_partial.
 Print Assumptions c15_set_mss_rescales.
 Print Assumptions c15_model_trace_core_ok.
+
+(* ======== byte-level results (Cubic/Cubic_Bytes_Proofs.v, predicates of Cubic/C15_Pred2.v) ======== *)
+From Utp Require Import Cubic.C15_Pred2 Cubic.Cubic_Bytes_Proofs.
+
+(* Slow start in BYTES (this closes c15_slow_start_growth_partial): any state with finite cwnd >= 0,
+   cwnd < ssthresh (floats), finite peer window in [0, 2^32] MSS, 1 <= mss < 2^16, len < 2^32: one
+   on_ack never lowers window() and raises it by at most len + 1.  The constant is exact: len + 1 is
+   attained (Cubic_Proofs.slow_start_bytes_len_plus_one, a reachable state) because the previous
+   window() was truncated down; "+ len" alone is false. *)
+Theorem c15_slow_start_bytes : forall (powf3 : f64 -> f64) (s : cubic) (now len rtt : Z),
+  (1 <= mss s < 65536)%Z ->
+  (is_finite (rwnd s) = true /\ (0 <= B2R (rwnd s) <= 4294967296)%R) ->
+  (0 <= len < 2 ^ 32)%Z ->
+  is_finite (cwnd s) = true -> (0 <= B2R (cwnd s))%R ->
+  flt (cwnd s) (ssthresh s) = true ->
+  exists s', cubic_on_ack powf3 s now len rtt = Some s' /\
+    mss s' = mss s /\ rwnd s' = rwnd s /\ ssthresh s' = ssthresh s /\
+    last_congestion_event s' = last_congestion_event s /\
+    (cubic_window s <= cubic_window s' <= cubic_window s + len + 1)%Z.
+Proof. exact slow_start_bytes. Qed.
+
+(* The float-state invariant of every reachable state (operations inside the domain c15_op_dom):
+   mss in range, peer window finite in [0, 2^32] MSS, cwnd and ssthresh each +inf or finite >= 0
+   (never NaN, never negative), whatever cbrt / powf3 return. *)
+Theorem c15_reachable_state_invariant : forall (cbrt powf3 : f64 -> f64) (mss0 : Z)
+    (ops : list cubic_op) (s : cubic),
+  (1 <= mss0 < 65536)%Z -> forallb c15_op_dom ops = true ->
+  cubic_run cbrt powf3 (cubic_new 0 mss0) ops = Some s ->
+  (1 <= mss s < 65536)%Z /\
+  (is_finite (rwnd s) = true /\ (0 <= B2R (rwnd s) <= 4294967296)%R) /\
+  (cwnd s = B754_infinity false \/ (is_finite (cwnd s) = true /\ (0 <= B2R (cwnd s))%R)) /\
+  (ssthresh s = B754_infinity false \/ (is_finite (ssthresh s) = true /\ (0 <= B2R (ssthresh s))%R)).
+Proof. exact reachable_state_invariant. Qed.
+
+(* On EVERY reachable state, with the guard on observables only (window() < sshthresh(), the slow
+   start clause of C05 / c15_obs_ok): one ACK of len bytes raises window() by at most len + 1. *)
+Theorem c15_slow_start_bytes_reachable : forall (cbrt powf3 : f64 -> f64) (mss0 : Z)
+    (ops : list cubic_op) (s : cubic) (now len rtt : Z) (s' : cubic),
+  (1 <= mss0 < 65536)%Z -> forallb c15_op_dom ops = true ->
+  cubic_run cbrt powf3 (cubic_new 0 mss0) ops = Some s ->
+  (0 <= len < 2 ^ 32)%Z -> cubic_on_ack powf3 s now len rtt = Some s' ->
+  (cubic_window s < cubic_sshthresh s)%Z ->
+  (cubic_window s' <= cubic_window s + len + 1)%Z.
+Proof. exact slow_start_bytes_reachable. Qed.
+
+(* After RTO / entry into recovery, in bytes: 0.7 * window_before <= sshthresh_after + 1 for every
+   state satisfying the reachable-state invariant (cwnd = +inf included) ... *)
+Theorem c15_ssthresh_after_loss_lower : forall (s : cubic),
+  (1 <= mss s < 65536)%Z ->
+  (is_finite (rwnd s) = true /\ (0 <= B2R (rwnd s) <= 4294967296)%R) ->
+  (cwnd s = B754_infinity false \/ (is_finite (cwnd s) = true /\ (0 <= B2R (cwnd s))%R)) ->
+  (7 * cubic_window s <=
+   10 * (usize_of_f64 (fmul (rust_max (fmul (cwnd s) BETA_CUBIC) f64_2) (f64_of_Z (mss s))) + 1))%Z.
+Proof. exact ss_lower. Qed.
+
+(* ... and sshthresh_after <= max(2 mss, 0.7 * (window_before + 1) + 1) when the peer window win is
+   in force (rwnd = fl(win/mss)) and cwnd <= max(rwnd, 2). *)
+Theorem c15_ssthresh_after_loss_upper : forall (s : cubic) (win : Z),
+  (1 <= mss s < 65536)%Z -> (0 <= win < 2 ^ 32)%Z ->
+  is_finite (rwnd s) = true -> B2R (rwnd s) = rnd (IZR win / IZR (mss s)) ->
+  is_finite (cwnd s) = true -> (0 <= B2R (cwnd s) <= Rmax (B2R (rwnd s)) 2)%R ->
+  (usize_of_f64 (fmul (rust_max (fmul (cwnd s) BETA_CUBIC) f64_2) (f64_of_Z (mss s)))
+   <= Z.max (2 * mss s) ((7 * (cubic_window s + 1)) / 10 + 1))%Z.
+Proof. exact ss_upper. Qed.
+
+(* set_mss in BYTES (completes c15_set_mss_rescales): peer window win in force, cwnd <= max(rwnd, 2),
+   byte window strictly inside (2 mss + 1, win - 1); then ANY list of at most 65536 set_mss calls and
+   set_remote_window win again: window() is the old byte window, or the new two-segment floor if that
+   is larger, up to one byte.  set_mss rescales; it never resets to the initial window. *)
+Theorem c15_set_mss_chain_bytes : forall (s : cubic) (win : Z) (ms : list Z),
+  (1 <= mss s < 65536)%Z -> (0 <= win < 2 ^ 32)%Z ->
+  is_finite (rwnd s) = true -> B2R (rwnd s) = rnd (IZR win / IZR (mss s)) ->
+  is_finite (cwnd s) = true -> (0 <= B2R (cwnd s) <= Rmax (B2R (rwnd s)) 2)%R ->
+  (2 * mss s + 1 < cubic_window s)%Z -> (cubic_window s + 1 < win)%Z ->
+  forallb c15_mss_ok ms = true -> (Z.of_nat (length ms) <= 65536)%Z ->
+  let s1 := fold_left cubic_set_mss ms s in
+  let w := cubic_window (cubic_set_remote_window s1 win) in
+  let expect := Z.max (cubic_window s) (Z.min (2 * mss s1) win) in
+  (expect - 1 <= w <= expect + 1)%Z.
+Proof. exact set_mss_chain_bytes. Qed.
+
+(* ALL clauses of the observable predicate c15_obs_ok, the rounding-sensitive ones included (slow
+   start growth <= len + 1, 0.7 window <= sshthresh + 1 and its upper counterpart after loss, byte
+   window kept across MSS changes), on EVERY model trace in which at most 65536 set_mss calls are
+   consecutive, for every cbrt / powf3. *)
+Theorem c15_model_trace_fine_ok : forall (cbrt powf3 : f64 -> f64) (mss0 : Z) (ops : list cubic_op),
+  setmss_runs_ok ops = true ->
+  c15_obs_ok mss0 ops (cubic_trace cbrt powf3 (cubic_new 0 mss0) ops) = true.
+Proof. exact model_trace_fine_ok. Qed.
+
+(* Unconditional: c15_obs_ok_b (= c15_obs_ok when no run of set_mss is longer than 65536, else
+   c15_obs_core) holds on every model trace. *)
+Theorem c15_model_trace_ok_b : forall (cbrt powf3 : f64 -> f64) (mss0 : Z) (ops : list cubic_op),
+  c15_obs_ok_b mss0 ops (cubic_trace cbrt powf3 (cubic_new 0 mss0) ops) = true.
+Proof. exact model_trace_ok_b. Qed.
+
+Print Assumptions c15_slow_start_bytes.
+Print Assumptions c15_reachable_state_invariant.
+Print Assumptions c15_slow_start_bytes_reachable.
+Print Assumptions c15_ssthresh_after_loss_lower.
+Print Assumptions c15_ssthresh_after_loss_upper.
+Print Assumptions c15_set_mss_chain_bytes.
+Print Assumptions c15_model_trace_fine_ok.
+Print Assumptions c15_model_trace_ok_b.
+
+(* The slow-start clause of C05 at the congestion controller, cumulative and EXACT: from Cubic::new,
+   after any sequence of at most 2^18 set_remote_window / on_ack / set_mss operations (no RTO, no
+   recovery) with 2 * mss_max + acked_bytes < 2^32:  window() <= 2 * mss_max + acked_bytes, where
+   (mss_max, acked_bytes) = ss_acc mss0 0 ops.  All float error is absorbed by the final truncation. *)
+Theorem c15_slow_start_cumulative : forall (cbrt powf3 : f64 -> f64) (now0 mss0 : Z)
+    (ops : list cubic_op) (s : cubic),
+  (1 <= mss0 < 65536)%Z -> forallb ss_only ops = true -> forallb c15_op_dom ops = true ->
+  (Z.of_nat (length ops) <= 262144)%Z ->
+  (2 * fst (ss_acc mss0 0 ops) + snd (ss_acc mss0 0 ops) <= 4294967295)%Z ->
+  cubic_run cbrt powf3 (cubic_new now0 mss0) ops = Some s ->
+  (cubic_window s <= 2 * fst (ss_acc mss0 0 ops) + snd (ss_acc mss0 0 ops))%Z.
+Proof. exact slow_start_cumulative. Qed.
+
+Print Assumptions c15_slow_start_cumulative.
